@@ -806,3 +806,42 @@ def cells_vs_fresh_policy(scn):
                     if not T.same(float(e), val, 1e-9):
                         return "row %d arm %r: expectation %r, but the statistic over the %d rewards in leaf %d is %r" % (qi, arm, val, len(rs), leaf, e)
     return None
+
+
+# ------------------------------------------------------------------ C14 binarizer applied exactly once
+
+def gen_c14(seed, index):
+    prof = {"name": "C14", "lp": ["thompson"], "np": [None] + G.NP_KINDS, "p_binz": 0.75, "p_add_binz": 0.6,
+            "weights": {"fit": 1, "pfit": 4, "query": 3, "add": 2, "rem": 0.5, "warm": 0}, "n_ops": (3, 9),
+            "unknown_labels": False}
+    rng, g = _gen(seed, index, prof)
+    return g.build()
+
+
+def is_k2(cfg):
+    return (cfg.get("np") or {}).get("k") == "tree" and cfg["lp"]["k"] == "thompson"
+
+
+@twin("binarizer_vs_preconverted")
+@T.quiet
+def binarizer_vs_preconverted(scn):
+    from . import binz as B
+    cfg = scn["cfg"]
+    T.register_labels(scn)
+    a = S.make_mab(cfg)
+    b = S.make_mab(dict(cfg, binz=None))
+    cur = cfg.get("binz")
+    for i, op in enumerate(scn["ops"]):
+        op_b = op
+        if op["op"] in ("fit", "pfit") and cur:
+            f = B.BINZ[cur]
+            op_b = dict(op, r=[f(d, r) for d, r in zip(op["d"], op["r"])])
+        elif op["op"] == "add":
+            if op.get("binz"):
+                cur = op["binz"]
+            op_b = dict(op, binz=None)
+        ra = T.apply_op(a, op)
+        rb = T.apply_op(b, op_b)
+        if not T.same(ra, rb, 0.0):
+            return "step %d (%s): with binarizer %r, with pre-converted rewards %r" % (i, op["op"], ra, rb)
+    return None
